@@ -300,3 +300,55 @@ Print Assumptions C19_main_queue_covers_loop.
 Example C19_dt_example :
   ex_opt "fs"%string <> 0 /\ ex_opt "getRevolutionFrequency"%string <> 0 /\ dt_spec ex_opt = / 180000.
 Proof. exact dt_example. Qed.
+
+(** * (family rfgen) the kick itself, over the field GENERATED from RFKickMap.cpp on every run (Gen/Gen_RFDrift.v:
+    _calcKick both branches, both constructors with their `_calcKick(_syncphase)` call and the default amplitude 1 read
+    from the header; run by Model/RFDriftGen.v: [rs_offset] is `_offset`, [rs_built] the offsets updateSM() built the
+    table from).  (a) The hand-written [kick_entry] of Model/DynRF.v that sections (2)-(4) speak about is the generated
+    `_calcKick` in the entry apply() reads for every bunch.  (b) Zero spreads and zero modulation amplitude: the record
+    of every step is (synchronous phase, 1), and `_calcKick` with it leaves exactly the offsets - and the table - the
+    static constructor left, for both RF models. *)
+From Inovesa Require Model.RFDriftKit Gen.Gen_RFDrift Model.RFDriftGen Proofs.RFDriftGenP.
+Module RFGenFamily.
+Import RFDriftKit Gen_RFDrift RFDriftGen RFDriftGenP.
+Local Open Scope Z_scope.
+
+Theorem C19_kick_entry_generated :
+  forall (K : Fld) (ftan fsin fasin : K -> K) (nb nx ny : Z) (A0 A1 : axfacts K) (M : rfk_members K) (phase ampl : K)
+         (st : rfd_state K) (b x : Z),
+    0 <= b < nb -> 0 <= x < nx ->
+    rs_offset (gen_calcKick ftan fsin fasin nb nx ny A0 A1 M phase ampl st) (Z.min b (nb - 1) * nx + x) =
+    kick_entry fsin (rfmap_of K ftan nx A0 A1 M) phase ampl x.
+Proof. exact kick_entry_generated. Qed.
+Print Assumptions C19_kick_entry_generated.
+
+Theorem C19_zero_amplitude_is_static_generated :
+  forall (K : Fld) (ftan fsin fasin : K -> K) (nb nx ny : Z) (A0 A1 : axfacts K)
+         (c two_pi angle revolutionpart V_RF f_RF V0 : K) (d : dyncfg K) (n1 n2 s : K),
+    phasenoise d = f0 -> amplnoise d = f0 -> modampl d = f0 -> 0 < nx -> 0 <= nb ->
+    (let M := rfk_ctor_lin_members K ftan fsin fasin A0 A1 c two_pi angle f_RF in
+     let st := gen_rfk_lin_ctor ftan fsin fasin nb nx ny A0 A1 c two_pi angle f_RF in
+     let e := mod_entry (m_syncphase M) d n1 n2 s in
+     forall i, rs_offset (gen_calcKick ftan fsin fasin nb nx ny A0 A1 M (fst e) (snd e) st) i = rs_offset st i /\
+               rs_built (gen_calcKick ftan fsin fasin nb nx ny A0 A1 M (fst e) (snd e) st) i = rs_built st i) /\
+    (let M := rfk_ctor_sin_members K ftan fsin fasin A0 A1 c two_pi revolutionpart V_RF f_RF V0 in
+     let st := gen_rfk_sin_ctor ftan fsin fasin nb nx ny A0 A1 c two_pi revolutionpart V_RF f_RF V0 in
+     let e := mod_entry (m_syncphase M) d n1 n2 s in
+     forall i, rs_offset (gen_calcKick ftan fsin fasin nb nx ny A0 A1 M (fst e) (snd e) st) i = rs_offset st i /\
+               rs_built (gen_calcKick ftan fsin fasin nb nx ny A0 A1 M (fst e) (snd e) st) i = rs_built st i).
+Proof. exact unmodulated_kick_is_static_generated. Qed.
+Print Assumptions C19_zero_amplitude_is_static_generated.
+
+(** non-vacuity over Qc: a 2-bunch, 4-cell linear map (tan := 1/4 constant, Ruler(4, -3/2, 3/2)); the static offsets and
+    the offsets after an unmodulated dynamic kick *)
+Example C19_generated_static_example :
+  let A := gen_axis (K:=QcF) 4 (Q2Qc (-3 # 2)) (Q2Qc (3 # 2)) (fun _ => 1%Qc) in
+  let tn := fun _ : Qc => Q2Qc (1 # 4) in let idf := fun q : Qc => q in
+  let M := rfk_ctor_lin_members QcF tn idf idf A A 1%Qc 1%Qc 1%Qc 1%Qc in
+  let st := gen_rfk_lin_ctor (K:=QcF) tn idf idf 2 4 4 A A 1%Qc 1%Qc 1%Qc 1%Qc in
+  let e := mod_entry (K:=QcF) (m_syncphase M) (mkDC (K:=QcF) 0%Qc 0%Qc 0%Qc 1%Qc) (Q2Qc 5) (Q2Qc 7) (Q2Qc (1 # 3)) in
+  map (fun i => this (rs_offset st i)) (zrange 9) = [3 # 8; 1 # 8; -1 # 8; -3 # 8; 3 # 8; 1 # 8; -1 # 8; -3 # 8; 0]%Q /\
+  map (fun i => this (rs_offset (gen_calcKick (K:=QcF) tn idf idf 2 4 4 A A M (fst e) (snd e) st) i)) (zrange 9) =
+  map (fun i => this (rs_offset st i)) (zrange 9).
+Proof. vm_compute. split; reflexivity. Qed.
+End RFGenFamily.
